@@ -91,10 +91,12 @@ Definition removed_keys (l : list och) : list string :=
 Definition kg_of (seq : bool) (obs : res (list och)) : keygen :=
   if seq then KSeq else KRand (match obs with Ok l => created_keys l | Panic _ => [] end).
 
-Definition render_change (o : opts) (env : tenv) (c : change) : och :=
+(* handle_code_action_resolve puts the front matter of the updated note back in front of the text *)
+Definition render_change (o : opts) (metas : list (string * string)) (env : tenv) (c : change) : och :=
   match c with
   | Create k => OCreate k
-  | Update k parent t => OUpdate k (tree_to_markdown o (tables_of_tree env t) parent t)
+  | Update k parent t =>
+      OUpdate k (wrap_metadata (alookup k metas) (tree_to_markdown o (tables_of_tree env t) parent t))
   | Remove k => ORemove k
   end.
 
@@ -121,8 +123,8 @@ Definition model_tree_changes (cx : actx) (seq : bool) (s : step) : res (list ch
   | _, _ => Panic "not offered"
   end.
 
-Definition model_changes (o : opts) (cx : actx) (env : tenv) (seq : bool) (s : step) : res (list och) :=
-  do l <- model_tree_changes cx seq s; Ok (map (render_change o env) l).
+Definition model_changes (o : opts) (metas : list (string * string)) (cx : actx) (env : tenv) (seq : bool) (s : step) : res (list och) :=
+  do l <- model_tree_changes cx seq s; Ok (map (render_change o metas env) l).
 
 (* the library after the editor applied the step's updates and sent didChange for each *)
 Definition graph_after (g : graph) (s : step) : res graph :=
@@ -135,7 +137,7 @@ Definition env_after (g2 : graph) (env : tenv) (s : step) : tenv :=
 Definition step_corr (o : opts) (g : graph) (cx : actx) (env : tenv) (seq : bool) (s : step) : bool * bool :=
   (offer_eqb (model_offer g cx s) (st_offer s),
    match step_target s with
-   | Some _ => res_eqb (list_eqb och_eqb) (model_changes o cx env seq s) (st_changes s)
+   | Some _ => res_eqb (list_eqb och_eqb) (model_changes o (gr_meta g) cx env seq s) (st_changes s)
    | None => true
    end).
 
@@ -269,8 +271,12 @@ Fixpoint a_inert_block (b : dblock) {struct b} : bool :=
 Definition blocks_dom (bs : list dblock) : bool :=
   forallb a_inert_block bs && forallb plain_items bs && forallb calm_items bs && negb (existsb has_table bs).
 
+(* also outside the domain: a library in which some note's title holds a refreshable link
+   (F-TITLELINK of C02: formatting is not a fixpoint there, so "restores the formatted original"
+   cannot be evaluated) *)
 Definition lib_dom (c : libcase) : bool :=
-  forallb (fun n => match ni_blocks n with Ok bs => blocks_dom bs | Panic _ => false end) (lc_notes c).
+  forallb (fun n => match ni_blocks n with Ok bs => blocks_dom bs | Panic _ => false end) (lc_notes c) &&
+  negb (existsb title_has_link (lc_notes c)).
 
 Definition step_dom (s : step) : bool :=
   forallb (fun r => match rr_doc r with Ok d => blocks_dom (snd d) | Panic _ => false end) (st_after s).
